@@ -52,6 +52,9 @@ func NewSolver(kind string, timeoutMS int) (*Solver, error) {
 		args = []string{"-in", "-smt2"}
 	case "cvc5":
 		args = []string{"--incremental", "--lang=smt2", "--produce-models", fmt.Sprintf("--tlimit-per=%d", timeoutMS)}
+	case "cvc5-int":
+		bin = "cvc5"
+		args = []string{"--incremental", "--lang=smt2", "--produce-models", "--solve-bv-as-int=sum", fmt.Sprintf("--tlimit-per=%d", timeoutMS)}
 	default:
 		return nil, fmt.Errorf("unknown solver %q", kind)
 	}
@@ -77,7 +80,7 @@ func NewSolver(kind string, timeoutMS int) (*Solver, error) {
 	s.send("(set-option :print-success false)")
 	s.send("(set-option :global-declarations true)")
 	s.send("(set-option :produce-models true)")
-	if kind != "cvc5" {
+	if kind != "cvc5" && kind != "cvc5-int" {
 		s.send(fmt.Sprintf("(set-option :timeout %d)", timeoutMS))
 	} else {
 		s.send("(set-logic ALL)")
@@ -491,4 +494,69 @@ func OneShot(kind string, script string, timeoutS int) (SatResult, float64, erro
 		return Sat, d, nil
 	}
 	return Unknown, d, nil
+}
+
+// Portfolio decides a stand-alone script on the secondary back ends, in order,
+// returning the first decisive answer (with model values for vars when sat).
+func Portfolio(pc []*Term, extra *Term, vars []*Term, timeoutS int) (SatResult, map[int]uint64, string) {
+	script := Script(pc, extra)
+	defined := map[int]bool{}
+	var mark func(t *Term)
+	mark = func(t *Term) {
+		if defined[t.id] {
+			return
+		}
+		defined[t.id] = true
+		for _, a := range t.A {
+			mark(a)
+		}
+	}
+	for _, t := range pc {
+		mark(t)
+	}
+	if extra != nil {
+		mark(extra)
+	}
+	var known []*Term
+	var sb strings.Builder
+	for _, v := range vars {
+		if defined[v.id] {
+			known = append(known, v)
+			sb.WriteString(v.Name + " ")
+		}
+	}
+	if len(known) > 0 {
+		script += "(get-value (" + sb.String() + "))\n"
+	}
+	type be struct {
+		name string
+		args []string
+		pre  string
+	}
+	backends := []be{
+		{"z3", []string{"-in", "-smt2", fmt.Sprintf("-T:%d", timeoutS)}, "(set-option :produce-models true)\n"},
+		{"cvc5", []string{"--lang=smt2", "--produce-models", "--solve-bv-as-int=sum", fmt.Sprintf("--tlimit=%d", timeoutS*1000)}, "(set-logic ALL)\n"},
+		{"cvc5", []string{"--lang=smt2", "--produce-models", fmt.Sprintf("--tlimit=%d", timeoutS*1000)}, "(set-logic ALL)\n"},
+	}
+	for _, b := range backends {
+		cmd := exec.Command(b.name, b.args...)
+		cmd.Stdin = strings.NewReader(b.pre + script)
+		out, _ := cmd.Output()
+		o := strings.TrimSpace(string(out))
+		first := strings.SplitN(o, "\n", 2)[0]
+		switch first {
+		case "unsat":
+			return Unsat, nil, b.name + " " + strings.Join(b.args[:1], "")
+		case "sat":
+			m := map[int]uint64{}
+			if len(known) > 0 {
+				rest := strings.TrimSpace(strings.TrimPrefix(o, "sat"))
+				if strings.HasPrefix(rest, "(error") || parseValues(rest, known, m) != nil {
+					continue
+				}
+			}
+			return Sat, m, b.name
+		}
+	}
+	return Unknown, nil, ""
 }
